@@ -115,13 +115,15 @@ var avatarPool = []string{"", "https://example.com/a.png", "not a url", "/relati
 func randRawVersion(r *rng, prev map[string]uint64, mode string) rawVersion {
 	times := map[string]uint64{}
 	for k, v := range prev {
-		times[k] = v + uint64(r.intn(3))
+		times[k] = v + uint64(pickOne(r, []int{0, 1, 2, 2, 9}))
 	}
 	switch mode {
 	case "decrease":
 		for k, v := range times {
-			if v > 0 {
-				times[k] = prev[k] - 1
+			if v > 0 && prev[k] > 0 {
+				// anywhere below the previous version's value: just under it, or further down (still
+				// above what an earlier version recorded, or not)
+				times[k] = prev[k] - 1 - uint64(r.intn(int(prev[k])))
 				break
 			}
 		}
@@ -294,12 +296,25 @@ func c09Validate(c *runCtx) {
 			prev = map[string]uint64{}
 		}
 		var modes []string
+		// one chain in four has irreproachable fields and 3..5 versions: the verdict is then about the
+		// clock histories alone (up, then down to somewhere above or below what an earlier version had)
+		clean := i%4 == 0
+		if clean {
+			n = r.rangeInt(3, 5)
+		}
 		for k := 0; k < n; k++ {
 			mode := "ok"
 			if k > 0 {
 				mode = pickOne(r, []string{"ok", "ok", "ok", "decrease", "drop", "newclock", "swap"})
+				if clean {
+					mode = pickOne(r, []string{"ok", "ok", "decrease", "newclock"})
+				}
 			}
 			v := randRawVersion(r, prev, mode)
+			if clean {
+				v.Name, v.Login, v.Email, v.Avatar = "valid name", "", "a@b.c", ""
+				v.Nonce = base64.StdEncoding.EncodeToString([]byte("01234567890123456789"))
+			}
 			prev = v.Times
 			vs = append(vs, v)
 			modes = append(modes, mode)
